@@ -232,6 +232,43 @@ fn native_spec() {
                 println!("SPEC-REPLAY MISMATCH target=build_once case=build x3 / reuse: PANICKED: {}", msg.replace('\n', " ").chars().take(140).collect::<String>());
             }
         }
+    } else if target == "unique_prefix" {
+        // C08: an unambiguous prefix equals the full name; an ambiguous one is never silently resolved
+        let mk = || {
+            Command::new("p")
+                .infer_subcommands(true)
+                .infer_long_args(true)
+                .arg(Arg::new("verbose").long("verbose").action(ArgAction::SetTrue))
+                .arg(Arg::new("version2").long("verify").action(ArgAction::SetTrue))
+                .arg(Arg::new("quiet").short('q').alias("quiet").action(ArgAction::SetTrue))
+                .arg(Arg::new("quick").long("quick").action(ArgAction::SetTrue))
+                .subcommand(Command::new("test").long_flag("testflag"))
+                .subcommand(Command::new("temp").long_flag("tempflag"))
+                .subcommand(Command::new("build"))
+        };
+        // (argv, Some(expected subcommand or flag id) / None = must be rejected)
+        let cases: Vec<(Vec<&str>, Option<&str>)> = vec![
+            (vec!["p", "te"], None), (vec!["p", "t"], None), (vec!["p", "tes"], Some("sub:test")), (vec!["p", "b"], Some("sub:build")),
+            (vec!["p", "test"], Some("sub:test")), (vec!["p", "--te"], None), (vec!["p", "--tes"], Some("sub:test")), (vec!["p", "--tem"], Some("sub:temp")),
+            (vec!["p", "--ver"], None), (vec!["p", "--verb"], Some("flag:verbose")), (vec!["p", "--veri"], Some("flag:version2")),
+            (vec!["p", "--qui"], None), (vec!["p", "--quie"], Some("flag:quiet")), (vec!["p", "--quic"], Some("flag:quick")),
+        ];
+        for (argv, want) in cases {
+            let r = mk().try_get_matches_from(argv.clone());
+            let got = match &r {
+                Ok(m) => {
+                    if let Some(n) = m.subcommand_name() {
+                        Some(format!("sub:{n}"))
+                    } else {
+                        ["verbose", "version2", "quiet", "quick"].iter().find(|id| m.get_flag(id)).map(|id| format!("flag:{id}"))
+                    }
+                }
+                Err(_) => None,
+            };
+            if got.as_deref() != want {
+                println!("SPEC-REPLAY MISMATCH target=unique_prefix case={argv:?}: resolved to {got:?}, expected {want:?} (None = rejected as ambiguous/unknown)");
+            }
+        }
     } else if target == "match_arg_error" {
         // C10: the error kind names a rule the input really breaks
         for acws in [false, true] {
